@@ -5,35 +5,108 @@ through str().  Shared by C02 (rows that use these codecs) and C03.
 """
 import ast
 
-from .core import AnalysisError, norm, loc
+from .core import AnalysisError, norm, loc, walk_no_nested, call_name
+from .normalize import inline, canon
 
 DICT_CODECS = ['fim.slivers.path_info:PathInfo', 'fim.slivers.path_info:ERO']
 
 
 def _keys_written(fn):
+    """key -> node carrying the value (``X['k'] = v`` statements and ``{'k': v}`` literals of the encoder)"""
     out = {}
     for n in ast.walk(fn):
         if isinstance(n, ast.Assign) and len(n.targets) == 1 and isinstance(n.targets[0], ast.Subscript) and \
                 isinstance(n.targets[0].slice, ast.Constant) and isinstance(n.targets[0].slice.value, str) and \
                 isinstance(n.targets[0].value, ast.Name):
-            out[n.targets[0].slice.value] = n
+            out[n.targets[0].slice.value] = (n, n.value)
+        elif isinstance(n, ast.Dict):
+            for k, v in zip(n.keys, n.values):
+                if isinstance(k, ast.Constant) and isinstance(k.value, str):
+                    out[k.value] = (k, v)
+        elif isinstance(n, ast.Call) and isinstance(n.func, ast.Name) and n.func.id == 'dict':
+            for k in n.keywords:
+                if k.arg:
+                    out[k.arg] = (k.value, k.value)
     return out
+
+
+def _decoded_names(fn):
+    """locals holding the decoded JSON dictionary (assigned from an expression that calls json.loads)"""
+    names = set()
+    for n in walk_no_nested(fn):
+        if isinstance(n, ast.Assign) and any(isinstance(c, ast.Call) and call_name(c) in ('loads', 'load') for c in ast.walk(n.value)):
+            for t in n.targets:
+                if isinstance(t, ast.Name):
+                    names.add(t.id)
+    return names
 
 
 def _keys_read(fn):
     out = {}
+    dnames = _decoded_names(fn)
     for n in ast.walk(fn):
         key = None
-        if isinstance(n, ast.Call) and isinstance(n.func, ast.Attribute) and n.func.attr == 'get' and n.args and \
+        if isinstance(n, ast.Call) and isinstance(n.func, ast.Attribute) and n.func.attr in ('get', 'pop') and n.args and \
                 isinstance(n.args[0], ast.Constant) and isinstance(n.args[0].value, str) and \
-                isinstance(n.func.value, ast.Name) and n.func.value.id == 'd':
+                isinstance(n.func.value, ast.Name) and n.func.value.id in dnames:
             key = n.args[0].value
-        elif isinstance(n, ast.Subscript) and isinstance(n.value, ast.Name) and n.value.id == 'd' and \
+        elif isinstance(n, ast.Subscript) and isinstance(n.value, ast.Name) and n.value.id in dnames and \
                 isinstance(n.slice, ast.Constant) and isinstance(n.slice.value, str) and isinstance(n.ctx, ast.Load):
             key = n.slice.value
         if key is not None:
             out.setdefault(key, []).append(n)
     return out
+
+
+def _value_positions(e):
+    """sub-expressions that contribute to the *value* of e (the test of a conditional expression only selects)"""
+    yield e
+    for f, v in ast.iter_fields(e):
+        if isinstance(e, ast.IfExp) and f == 'test':
+            continue
+        if isinstance(v, ast.AST):
+            yield from _value_positions(v)
+        elif isinstance(v, list):
+            for x in v:
+                if isinstance(x, ast.AST):
+                    yield from _value_positions(x)
+
+
+def _stored_keys(fn, reads):
+    """keys whose decoded value flows into the state of the object that is built (constructor argument or attribute store)"""
+    stored = set()
+    for key, nodes in reads.items():
+        tainted = set()
+        changed = True
+
+        def carries(expr, value_only):
+            it = _value_positions(canon(expr)) if value_only else ast.walk(expr)
+            for x in it:
+                if isinstance(x, ast.Name) and x.id in tainted:
+                    return True
+                if any(ast.dump(x) == ast.dump(n) for n in nodes):
+                    return True
+            return False
+        while changed:
+            changed = False
+            for st in walk_no_nested(fn):
+                if isinstance(st, ast.Assign) and carries(st.value, True):
+                    for t in st.targets:
+                        if isinstance(t, ast.Name) and t.id not in tainted:
+                            tainted.add(t.id)
+                            changed = True
+        for st in walk_no_nested(fn):
+            if isinstance(st, ast.Assign) and any(isinstance(t, ast.Attribute) for t in st.targets) and carries(st.value, True):
+                stored.add(key)
+            if isinstance(st, ast.Call) and isinstance(st.func, ast.Name) and (st.func.id == 'cls' or st.func.id[:1].isupper()) and \
+                    any(carries(a, True) for a in list(st.args) + [k.value for k in st.keywords]):
+                stored.add(key)
+            if isinstance(st, ast.Call) and isinstance(st.func, ast.Name) and st.func.id == 'setattr' and len(st.args) == 3 and carries(st.args[2], True):
+                stored.add(key)
+            if isinstance(st, ast.Call) and isinstance(st.func, ast.Attribute) and st.func.attr.startswith('set_') and \
+                    any(carries(a, True) for a in list(st.args) + [k.value for k in st.keywords]):
+                stored.add(key)
+    return stored
 
 
 def check_dict_codecs(prog, rep, rule):
@@ -43,8 +116,13 @@ def check_dict_codecs(prog, rep, rule):
         fj = cls.methods.get('from_json')
         if tj is None or fj is None:
             raise AnalysisError(f'{cls.qual}: to_json/from_json pair vanished')
-        w = _keys_written(tj)
+        tj = inline(prog, cls, tj)
+        fj = inline(prog, cls, fj)
+        w = {k: v[0] for k, v in _keys_written(tj).items()}
+        wval = {k: v[1] for k, v in _keys_written(tj).items()}
         r = _keys_read(fj)
+        if not w or not r:
+            raise AnalysisError(f'{cls.qual}: codec key tables not recognised (written {sorted(w)}, read {sorted(r)})')
         fq = f'{cls.name}.to_json/from_json'
         rep.instance(rule, f'{cls.name}: keys written {sorted(w)} read {sorted(r)}')
         for k in sorted(set(w) - set(r)):
@@ -53,6 +131,13 @@ def check_dict_codecs(prog, rep, rule):
         for k in sorted(set(r) - set(w)):
             rep.violation(rule, loc(cls.module, r[k][0]), f'{cls.name}.to_json', f'key {k!r} read, never written',
                           f'{cls.name}.from_json reads key {k!r} that to_json never writes')
+        stored = _stored_keys(fj, r)
+        rep.instance(rule, f'{cls.name}.from_json: decoded keys that reach the state of the new object: {sorted(stored)}')
+        for k in sorted(set(r) & set(w) - stored):
+            rep.violation(rule, loc(cls.module, r[k][0]), f'{cls.name}.from_json', f'key {k!r} decoded but not stored',
+                          f'{cls.name}.from_json reads key {k!r} but its value never reaches the object that is returned (neither as a '
+                          f'constructor argument nor through an attribute): the decoded value has the default there instead of '
+                          f'what was encoded, and re-encoding it gives a different text')
         # representation: reader compares against string tokens => writer must emit str(...)
         for k, nodes in r.items():
             if k not in w:
@@ -69,7 +154,7 @@ def check_dict_codecs(prog, rep, rule):
                         p.func.attr in ('type_from_str', 'from_string'):
                     expects_str = True
             if expects_str:
-                val = w[k].value
+                val = wval[k]
                 is_str = isinstance(val, ast.Call) and isinstance(val.func, ast.Name) and val.func.id == 'str'
                 is_str = is_str or (isinstance(val, ast.Constant) and isinstance(val.value, str)) or \
                     isinstance(val, ast.JoinedStr)
